@@ -311,6 +311,38 @@ Example c09_wire_header_instance :
              toy_token (mkta 1 None None) None = Ok (toy_hdr, PDict []).
 Proof. exact wire_header_instance. Qed.
 
+(* c09_jwe_header_kept: over the JWE transport, for EVERY claims set (hence every plaintext,
+   compressible or not) and every encoder, the protected header of the produced token is the
+   given header with the typ default (typ first, explicit typ wins) followed only by members
+   with new names: every member the caller gave (zip, cty, kid, crit, apu/apv, p2c ...) is in
+   the token with its value - GIVEN that encrypt_compact keeps the dict it is handed (the
+   contract; checked on every recorded call: header_kept_contract in C09Cases.v). *)
+Theorem c09_jwe_header_kept :
+  forall (json_dumps : option N -> claims -> res bytes)
+         (jws_encode jwe_encode : hdr -> bytes -> targs -> res bytes * hdr)
+         (jwe_decode : bytes -> targs -> res (hdr * bytes)) (a : targs),
+    reg_is_jwe (ta_reg a) = true ->
+    (forall w p tok w', jwe_encode w p a = (Ok tok, w') ->
+       jwe_decode tok a = Ok (w', p) /\
+       exists extra, w' = w ++ extra /\ forall k, dmem w k = true -> dmem extra k = false) ->
+    forall h c encoder_cls tok,
+      keys_unique (dkeys h) = true ->
+      eo_result (jwt_encode json_dumps jws_encode jwe_encode h c a encoder_cls) = Ok tok ->
+      exists p extra,
+        jwe_decode tok a = Ok (spec_header h ++ extra, p) /\
+        eo_work (jwt_encode json_dumps jws_encode jwe_encode h c a encoder_cls) = spec_header h ++ extra /\
+        (forall k, dmem (spec_header h) k = true -> dmem extra k = false) /\
+        dget (spec_header h ++ extra) lit_typ =
+          Some (match dget h lit_typ with Some v => v | None => lit_JWT end) /\
+        (forall k v, dget h k = Some v -> dget (spec_header h ++ extra) k = Some v).
+Proof. exact api_jwe_header_kept. Qed.
+
+Example c09_jwe_header_kept_instance :
+  spec_header [(asc "alg", PStr (asc "dir")); (asc "enc", PStr (asc "A128GCM")); (asc "zip", PStr (asc "DEF"))] =
+    [(asc "typ", PStr (asc "JWT")); (asc "alg", PStr (asc "dir")); (asc "enc", PStr (asc "A128GCM")); (asc "zip", PStr (asc "DEF"))] /\
+  reg_is_jwe (ta_reg (mkta 1 None (Some (true, 1%N)))) = true.
+Proof. exact jwe_header_kept_instance. Qed.
+
 (* integrity first, stated against the payload parser: with a failing transport
    no parser is consulted *)
 Theorem c09_integrity_independent_of_payload : forall jl1 jl2 td tok e,
@@ -374,4 +406,5 @@ Print Assumptions c09_header_unchanged_any_options.
 Print Assumptions c09_rt_any_options.
 Print Assumptions c09_default_encoder_is_instance.
 Print Assumptions c09_decode_header_is_wire_header.
+Print Assumptions c09_jwe_header_kept.
 Print Assumptions c09_contracts_satisfiable.
